@@ -6,5 +6,6 @@
 struct drbg_ref { uint8_t K[32], V[32]; uint32_t reseed_counter; int instantiated; };
 void drbg_ref_instantiate(struct drbg_ref *, const uint8_t * seed, size_t seedlen);
 void drbg_ref_reseed(struct drbg_ref *, const uint8_t * seed, size_t seedlen);
+void drbg_ref_extra(struct drbg_ref *, const uint8_t * data, size_t len);	/* state update only */
 void drbg_ref_generate(struct drbg_ref *, uint8_t * out, size_t len);	/* one generate call, len <= 65536 */
 #endif
